@@ -30,3 +30,68 @@ def truth_table(expr, atoms):
     names = sorted(atoms)
     f = bool_skeleton(expr, atoms)
     return {vals: f(dict(zip(names, vals))) for vals in itertools.product((False, True), repeat=len(names))}
+
+
+def single_assignments(fnode):
+    """{name: value node} for locals assigned exactly once (plain `name = expr`) in the function."""
+    from .index import walk_no_nested
+    counts, vals = {}, {}
+    for n in walk_no_nested(fnode):
+        if isinstance(n, (ast.Assign, ast.AnnAssign, ast.AugAssign)):
+            tgts = n.targets if isinstance(n, ast.Assign) else [n.target]
+            for t in tgts:
+                for x in ast.walk(t):
+                    if isinstance(x, ast.Name) and isinstance(x.ctx, ast.Store):
+                        counts[x.id] = counts.get(x.id, 0) + 1
+                        if isinstance(n, ast.Assign) and len(n.targets) == 1 and isinstance(n.targets[0], ast.Name):
+                            vals[x.id] = n.value
+        elif isinstance(n, (ast.For, ast.AsyncFor, ast.With, ast.AsyncWith, ast.ExceptHandler, ast.comprehension)):
+            tg = []
+            if isinstance(n, (ast.For, ast.AsyncFor, ast.comprehension)):
+                tg = [n.target]
+            elif isinstance(n, (ast.With, ast.AsyncWith)):
+                tg = [i.optional_vars for i in n.items if i.optional_vars is not None]
+            for t in tg:
+                for x in ast.walk(t):
+                    if isinstance(x, ast.Name):
+                        counts[x.id] = counts.get(x.id, 0) + 2  # never an alias
+    a = fnode.args
+    for p in a.posonlyargs + a.args + a.kwonlyargs:
+        counts[p.arg] = counts.get(p.arg, 0) + 2
+    return {k: v for k, v in vals.items() if counts.get(k) == 1}
+
+
+def clone(node):
+    """Copy an AST subtree by its syntactic fields only (never follows the _parent/_module back references)."""
+    if isinstance(node, list):
+        return [clone(x) for x in node]
+    if not isinstance(node, ast.AST):
+        return node
+    new = type(node)()
+    for f in node._fields:
+        if hasattr(node, f):
+            setattr(new, f, clone(getattr(node, f)))
+    for a in ("lineno", "col_offset", "end_lineno", "end_col_offset"):
+        if hasattr(node, a):
+            setattr(new, a, getattr(node, a))
+    return new
+
+
+class _Expand(ast.NodeTransformer):
+    def __init__(self, table, depth=4):
+        self.table = table
+        self.depth = depth
+
+    def visit_Name(self, node):
+        if isinstance(node.ctx, ast.Load) and node.id in self.table and self.depth > 0:
+            sub = clone(self.table[node.id])
+            return _Expand(self.table, self.depth - 1).visit(sub)
+        return node
+
+
+def expand(fnode, expr, table=None):
+    """Text of expr with single-assignment locals replaced by the expressions they name (hoisted pure calls, path joins ...)."""
+    if expr is None:
+        return None
+    table = table if table is not None else single_assignments(fnode)
+    return ast.unparse(_Expand(table).visit(clone(expr)))
